@@ -65,7 +65,7 @@ fn norm(s: &str) -> String {
     s.chars().filter(|c| !c.is_whitespace()).collect()
 }
 
-fn parse_contracts(dir: &str) -> Contracts {
+fn parse_contracts(dir: &str, config: &str) -> Contracts {
     let mut c = Contracts::default();
     let mut files: Vec<_> = fs::read_dir(dir)
         .expect("contracts dir")
@@ -77,6 +77,12 @@ fn parse_contracts(dir: &str) -> Contracts {
     for p in files {
         let txt = fs::read_to_string(&p).unwrap();
         let fname = p.file_name().unwrap().to_string_lossy().to_string();
+        // `@only-config <name>`: the whole file belongs to one extraction configuration (extract.json: "config")
+        if let Some(l) = txt.lines().find(|l| l.trim_start().starts_with("@only-config ")) {
+            if l.trim_start()["@only-config ".len()..].trim() != config {
+                continue;
+            }
+        }
         enum Sec {
             None,
             FnHeader(String),
@@ -89,6 +95,9 @@ fn parse_contracts(dir: &str) -> Contracts {
         let mut sec = Sec::None;
         for line in txt.lines() {
             let t = line.trim_start();
+            if t.starts_with("@only-config ") {
+                continue;
+            }
             if t.starts_with("@fn ") {
                 let key = norm(&t[4..]);
                 let e = c.fns.entry(key.clone()).or_default();
@@ -278,6 +287,27 @@ struct Rw<'a> {
     mutslice_params: Vec<BTreeSet<String>>, // per fn: params of type &mut [u8]
     closure_ctr: usize,
     file: String,
+    const_values: &'a BTreeMap<String, u64>, // extract.json "const_values": integer constants of dependencies (N15)
+}
+
+/// N15: value of a constant integer expression made of literals, `+`/`-`/`*`, parentheses and the constants of the table
+fn const_eval(e: &Expr, table: &BTreeMap<String, u64>) -> Option<u64> {
+    match e {
+        Expr::Lit(l) => match &l.lit { Lit::Int(i) => i.base10_parse::<u64>().ok(), _ => None },
+        Expr::Paren(p) => const_eval(&p.expr, table),
+        Expr::Path(p) => p.path.segments.last().and_then(|s| table.get(&s.ident.to_string()).cloned()),
+        Expr::Binary(b) => {
+            let l = const_eval(&b.left, table)?;
+            let r = const_eval(&b.right, table)?;
+            match b.op {
+                BinOp::Add(_) => l.checked_add(r),
+                BinOp::Sub(_) => l.checked_sub(r),
+                BinOp::Mul(_) => l.checked_mul(r),
+                _ => None,
+            }
+        }
+        _ => None,
+    }
 }
 
 fn lit_const_name(bytes: &[u8]) -> String {
@@ -415,6 +445,28 @@ fn first_seg(p: &Path) -> Option<String> {
 }
 
 impl<'a> VisitMut for Rw<'a> {
+    fn visit_type_array_mut(&mut self, t: &mut TypeArray) {
+        // N15: an array length that is constant arithmetic over dependency constants becomes its value (inside `verus!`
+        // the arithmetic would be typed `int`)
+        if !matches!(&t.len, Expr::Lit(_)) {
+            if let Some(v) = const_eval(&t.len, self.const_values) {
+                self.log.push(format!("N15 array length `{}` -> {}", t.len.to_token_stream(), v));
+                let lit = proc_macro2::Literal::u64_unsuffixed(v);
+                t.len = parse_quote!(#lit);
+            }
+        }
+        visit_mut::visit_type_array_mut(self, t);
+    }
+    fn visit_expr_repeat_mut(&mut self, r: &mut ExprRepeat) {
+        if !matches!(&*r.len, Expr::Lit(_)) {
+            if let Some(v) = const_eval(&r.len, self.const_values) {
+                self.log.push(format!("N15 array length `{}` -> {}", r.len.to_token_stream(), v));
+                let lit = proc_macro2::Literal::u64_unsuffixed(v);
+                *r.len = parse_quote!(#lit);
+            }
+        }
+        visit_mut::visit_expr_repeat_mut(self, r);
+    }
     fn visit_item_fn_mut(&mut self, f: &mut ItemFn) {
         self.push_params(&f.sig);
         visit_mut::visit_item_fn_mut(self, f);
@@ -1755,7 +1807,16 @@ fn main() {
     }
     let repo = &args[1];
     let cfg: Value = serde_json::from_str(&fs::read_to_string(&args[2]).expect("extract.json")).expect("json");
-    let mut contracts = parse_contracts(&args[3]);
+    let mut const_values: BTreeMap<String, u64> = BTreeMap::new();
+    if let Some(o) = cfg.get("const_values").and_then(|v| v.as_object()) {
+        for (k, v) in o {
+            if let Some(n) = v.as_u64() {
+                const_values.insert(k.clone(), n);
+            }
+        }
+    }
+    let config_name = cfg.get("config").and_then(|v| v.as_str()).unwrap_or("main").to_string();
+    let mut contracts = parse_contracts(&args[3], &config_name);
     let out_dir = &args[4];
     fs::create_dir_all(out_dir).unwrap();
 
@@ -1952,6 +2013,7 @@ fn main() {
             mutslice_params: vec![],
             closure_ctr: 0,
             file: path.to_string(),
+            const_values: &const_values,
         };
         rw.visit_file_mut(&mut file);
         log.extend(rw.log);
